@@ -13,8 +13,10 @@ package lfshttp
 // (url_user(location)): credentials embedded in the URL of the original
 // request are never carried over, and DoWithRedirect hands the new request on
 // with the userinfo it was built with.
+// C18: a redirected API request is the same request - method, body and its
+// length - sent to the new location (a POST is not turned into a GET).
 //@ func newRequestForRetry
-//@   props C10
+//@   props C10 C18
 //@   requires @inv req != nil && req.URL != nil && req.Header != nil
 //@   requires @inv forall_v(k, has(req.Header, k), has(req.Header, k) ==> str_canon(k) == k)
 //@   ensures result1 == nil ==> result0 != nil && result0.URL != nil
@@ -23,6 +25,7 @@ package lfshttp
 //@   ensures result1 != nil ==> result0 == nil
 //@   ensures result1 == nil ==> result0.Header != nil && forall_v(k, has(result0.Header, k), has(result0.Header, k) ==> str_canon(k) == k)
 //@   ensures result1 == nil ==> result0.URL.User == url_user(location)
+//@   ensures @C18 result1 == nil ==> result0.Method == old(req.Method) && result0.Body == old(req.Body) && result0.ContentLength == old(req.ContentLength)
 //@   monitor retrieduser[0] := result0.URL.User
 //@   loop 1 invariant has(newReq.Header, "Authorization") ==> sameHost
 //@   loop 1 invariant newReq.Header != req.Header
@@ -42,7 +45,7 @@ package lfshttp
 // attached to that very request (lfshttp.WithRetries), and only once when
 // none is attached - a request is never replayed on the quiet.
 //@ func (*Client).DoWithRedirect
-//@   props C10 C15
+//@   props C10 C15 C18
 //@   at call (*http.Client).Do:1 assert @C15 arg1__ == req && i >= 0
 //@   at call (*http.Client).Do:1 assert @C15 !req_hasretries(req) || req_retries(req) <= 0 ==> i < 1
 //@   at call (*http.Client).Do:1 assert @C15 req_hasretries(req) && req_retries(req) > 0 ==> i <= req_retries(req)
@@ -54,6 +57,7 @@ package lfshttp
 //@   ensures result0 != nil && has(result0.Header, "Authorization") ==> result0.URL.Host == old(req.URL.Host)
 //@   ensures result0 != nil ==> !(old(req.URL.Scheme) == "https" && result0.URL.Scheme == "http")
 //@   ensures result0 != nil ==> result0.URL.User == retrieduser(0)
+//@   ensures @C18 result0 != nil ==> result0.Method == old(req.Method) && result0.ContentLength == old(req.ContentLength)
 
 // Tracing and response classification: assumed frames (they log, wrap the
 // request body and build error values; they do not touch URL or Header).
